@@ -1,5 +1,5 @@
 \* C16, exhaustive, thorough: the repaired Skip; capacity 6 (three frames per fill), periods 0..4,
-\* three word values, ghost history up to 7 accepted words, k up to 11.
+\* three word values, ghost history up to 6 accepted words, k up to 11.
 CONSTANTS
   Cap = 6
   TW = 8
@@ -9,7 +9,7 @@ CONSTANTS
   Periods = {0, 1, 2, 3, 4}
   Clocks = {0, 1}
   K = 11
-  G = 7
+  G = 6
   PhaseKept = FALSE
 SPECIFICATION Spec
 CONSTRAINT HistoryBound
